@@ -31,10 +31,12 @@ struct PolU0 { // all defaults, unaligned map, poison hooks
 	void unpoison_expand(void *p, size_t n) { slabh_poison(2, p, n); }
 };
 // parametrised geometries; the four shapes differ in which members exist (that is what slab.hpp detects)
+// policies may declare their constants with any integral type: odd bucket counts use unsigned int, even ones size_t
+template <int NB> using GeomT = std::conditional_t<(NB & 1) != 0, unsigned int, size_t>;
 template <size_t PAGE, size_t SLAB, size_t SB, int NB, int AL, int PO> struct Pol;
 template <size_t PAGE, size_t SLAB, size_t SB, int NB>
 struct Pol<PAGE, SLAB, SB, NB, 1, 1> {
-	static constexpr size_t pagesize = PAGE, slabsize = SLAB, sb_size = SB; static constexpr int num_buckets = NB;
+	static constexpr GeomT<NB> pagesize = PAGE, slabsize = SLAB, sb_size = SB; static constexpr int num_buckets = NB;
 	uintptr_t map(size_t len, size_t align) { return slabh_map(len, align); }
 	void unmap(uintptr_t b, size_t l) { slabh_unmap(b, l); }
 	void poison(void *p, size_t n) { slabh_poison(0, p, n); }
@@ -43,19 +45,19 @@ struct Pol<PAGE, SLAB, SB, NB, 1, 1> {
 };
 template <size_t PAGE, size_t SLAB, size_t SB, int NB>
 struct Pol<PAGE, SLAB, SB, NB, 1, 0> {
-	static constexpr size_t pagesize = PAGE, slabsize = SLAB, sb_size = SB; static constexpr int num_buckets = NB;
+	static constexpr GeomT<NB> pagesize = PAGE, slabsize = SLAB, sb_size = SB; static constexpr int num_buckets = NB;
 	uintptr_t map(size_t len, size_t align) { return slabh_map(len, align); }
 	void unmap(uintptr_t b, size_t l) { slabh_unmap(b, l); }
 };
 template <size_t PAGE, size_t SLAB, size_t SB, int NB>
 struct Pol<PAGE, SLAB, SB, NB, 0, 0> {
-	static constexpr size_t pagesize = PAGE, slabsize = SLAB, sb_size = SB; static constexpr int num_buckets = NB;
+	static constexpr GeomT<NB> pagesize = PAGE, slabsize = SLAB, sb_size = SB; static constexpr int num_buckets = NB;
 	uintptr_t map(size_t len) { return slabh_map(len, 0); }
 	void unmap(uintptr_t b, size_t l) { slabh_unmap(b, l); }
 };
 template <size_t PAGE, size_t SLAB, size_t SB, int NB>
 struct Pol<PAGE, SLAB, SB, NB, 0, 1> {
-	static constexpr size_t pagesize = PAGE, slabsize = SLAB, sb_size = SB; static constexpr int num_buckets = NB;
+	static constexpr GeomT<NB> pagesize = PAGE, slabsize = SLAB, sb_size = SB; static constexpr int num_buckets = NB;
 	uintptr_t map(size_t len) { return slabh_map(len, 0); }
 	void unmap(uintptr_t b, size_t l) { slabh_unmap(b, l); }
 	void poison(void *p, size_t n) { slabh_poison(0, p, n); }
